@@ -85,6 +85,8 @@ def add_flops_typed(r, c, k, bbt):
         c.blackboxes[inst] = bbt
         for p in sorted(bbt.inputs()):
             g.add_node("%s.%s" % (inst, p), type="bb_input", output=False)
+            if p == "K" and r.random() < 0.5:
+                continue                       # an input pin left unconnected (it is still a pin of the instance)
             if p == "d":
                 g.add_edge(r.choice(nodes), "%s.d" % inst)
             else:
